@@ -3214,7 +3214,12 @@ parsec_insert_dtd_task(parsec_task_t *__this_task)
                  * operation on the data as following: R, .... R, W. This takes care of those
                  * cases.
                  */
-                if( last_user.task == this_task ) {
+                /* last_user.task may be the stale address of a completed (not alive) reader whose memory
+                 * the task mempool has handed out again for this_task: only trust the match when the
+                 * recorded flow really is an earlier flow of this task on this tile. */
+                if( last_user.task == this_task &&
+                    last_user.flow_index < flow_index &&
+                    (FLOW_OF(this_task, last_user.flow_index))->tile == tile ) {
                     if((last_user.op_type & PARSEC_GET_OP_TYPE) == PARSEC_INPUT ) {
                         if( this_task->super.data[last_user.flow_index].data_in != NULL) {
 /* #if defined(PARSEC_HAVE_DEV_CUDA_SUPPORT) */
